@@ -60,6 +60,17 @@ CHECKS.update({
                      "transition must give equal normal forms with equal hashes and equivalent loaders, dumpers and predicates (with fresh "
                      "and warm lru_cache), an edit must give unequal normal forms, normalisation must be idempotent and bare generics get "
                      "the documented implicit parameters."),
+    "C18": dict(technique="TLA+ spec Enum.tla (flag values as bit sets, Python's Flag validity rule, documented load rules of the flag providers) "
+                          "model-checked by TLC; every flag class x option combination x candidate representation replayed on real enum.Flag "
+                          "classes; described Enum classes x providers",
+                category="model_checking", design_ref="6/C18",
+                note="trusts: Enum.tla Valid == enum.Flag's own rule (verified against Python for every class at run time); 3 bits; the six "
+                     "described Enum classes of vf/props/c18.py; by-exact-value lookup by ==/hash counted as representation",
+                text="TLC enumerates all Flag classes over 3 bits (<= 3 members quick, <= 4 thorough, with/without alias) with every option "
+                     "combination of flag_by_member_names and flag_by_exact_value, and the model's Load on every candidate representation; on "
+                     "the real providers creation must succeed for every non-excluded class, every member combination must dump to a "
+                     "representation that the model's Load and the real loader map back to it, and every other candidate must be rejected "
+                     "with a LoadError; Enum classes with look-alike values / mixins / aliases are checked for the enum providers."),
     "C19": dict(technique="TLA+ spec Layout.tla treats names/keys as uninterpreted tokens (model invariant under renaming); the TLC-enumerated "
                           "programs are replayed under hostile name/key dictionaries and must reproduce the model's outcomes; canary for execution",
                 category="model_checking", design_ref="6/C19",
